@@ -5,7 +5,7 @@ CONSTANT Gids <- MC2Gids
 CONSTANT Modes <- MC2Modes
 CONSTANT Errs <- MC2Errs
 SPECIFICATION MSpec
-CONSTRAINT NoKF
+CONSTRAINT NoKF_Mode
 INVARIANT TypeOK
 INVARIANT AcceptArgsAreKernelCreds
 INVARIANT RefusalReported
